@@ -64,7 +64,53 @@ func tokenize(text string) (tokens []string, ok bool) {
 	return tokens, true
 }
 
+// lowerTable is the model's own case folding for the non-ASCII letters the
+// generator uses (upper case -> lower case, per the Unicode simple lower-case
+// mapping; note that some pairs differ in encoded length).
+var lowerTable = map[rune]rune{
+	'É': 'é', 'Ü': 'ü', 'Ñ': 'ñ', 'Ж': 'ж', 'Д': 'д', 'Λ': 'λ',
+	'\u023A': '\u2C65', // Ⱥ (2 bytes) -> ⱥ (3 bytes)
+	'\u212A': 'k',      // Kelvin sign (3 bytes) -> k
+	'\u0130': 'i',      // İ (2 bytes) -> i
+}
+
+// modelLower lower-cases rune by rune: ASCII A-Z, the table above, anything
+// else through the Unicode simple mapping.
+func modelLower(s string) string {
+	rs := []rune(s)
+	for i, r := range rs {
+		switch {
+		case r >= 'A' && r <= 'Z':
+			rs[i] = r + ('a' - 'A')
+		case r < 0x80:
+		default:
+			if l, ok := lowerTable[r]; ok {
+				rs[i] = l
+			} else {
+				rs[i] = unicode.ToLower(r)
+			}
+		}
+	}
+	return string(rs)
+}
+
 func matches(texts []string, tokens []string) bool {
+	return matchesFold(texts, tokens, modelLower)
+}
+
+// asciiLower folds A-Z only (used to COUNT the views in which the folding of
+// a non-ASCII letter decides the result; never used as the oracle).
+func asciiLower(s string) string {
+	b := []byte(s)
+	for i, c := range b {
+		if c >= 'A' && c <= 'Z' {
+			b[i] = c + ('a' - 'A')
+		}
+	}
+	return string(b)
+}
+
+func matchesFold(texts []string, tokens []string, lower func(string) string) bool {
 	if len(tokens) == 0 {
 		return true
 	}
@@ -72,9 +118,9 @@ func matches(texts []string, tokens []string) bool {
 		if tok == "" {
 			continue
 		}
-		lt := strings.ToLower(tok)
+		lt := lower(tok)
 		for _, t := range texts {
-			if strings.Contains(strings.ToLower(t), lt) {
+			if strings.Contains(lower(t), lt) {
 				return true
 			}
 		}
@@ -106,6 +152,10 @@ func (v view) filterActive() bool {
 
 // apply returns the filtered and sorted list.
 func (v view) apply(c connSpec, items []mItem) []mItem {
+	return v.applyFold(c, items, modelLower)
+}
+
+func (v view) applyFold(c connSpec, items []mItem, lower func(string) string) []mItem {
 	out := items
 	if v.hasFilterText && v.filterText != "" {
 		tokens, ok := tokenize(v.filterText)
@@ -131,7 +181,7 @@ func (v view) apply(c connSpec, items []mItem) []mItem {
 			for _, ti := range textIdx {
 				texts = append(texts, it.attr.T[ti])
 			}
-			if matches(texts, tokens) {
+			if matchesFold(texts, tokens, lower) {
 				out = append(out, it)
 			}
 		}
